@@ -618,6 +618,33 @@ def msLoop (md5 : Bytes → Bytes) (oldsec newsec oldauth newauth : Bytes) : Lis
           | none => none
           | some s2 => (msLoop md5 oldsec newsec oldauth newauth rest).map ({ a with v := a.v.take 4 ++ s2 } :: ·)
 
+/-- one Tunnel-Password attribute of an Access-Accept: fresh salt from RAND_bytes, then `pwdrecrypt`
+    on the octets after tag and salt; none = the reply is dropped -/
+def tunnelOne (oldsec newsec oldauth newauth : Bytes) (w : World) (ta : Tlv) : World × Option Tlv :=
+  let (w, rnd) := takeRnd w 2
+  let newsalt : Bytes := [rnd.getD 0 0 ||| 0x80, rnd.getD 1 0]
+  let plen := (ta.v.length + 253) % 256      -- (uint8_t)(l - 3)
+  let body := (ta.v.drop 3).take plen
+  if plen ≠ body.length then (w, none)          -- wrapped length: rejected by the guard below
+  else
+    match Crypt.pwdrecrypt w.H.md5 body oldsec newsec oldauth newauth ((ta.v.drop 1).take 2) newsalt with
+    | none => (w, none)
+    | some c => (w, some { ta with v := ta.v.take 1 ++ newsalt ++ c ++ (ta.v.drop (3 + plen)) })
+
+/-- the Tunnel-Password loop of replyh over the attribute list -/
+def tunnelLoop (oldsec newsec oldauth newauth : Bytes) : World → List Tlv → World × Option (List Tlv)
+  | w, [] => (w, some [])
+  | w, a :: rest =>
+    if a.t ≠ 69 then
+      let r := tunnelLoop oldsec newsec oldauth newauth w rest
+      (r.1, r.2.map (a :: ·))
+    else
+      match tunnelOne oldsec newsec oldauth newauth w a with
+      | (w, none) => (w, none)
+      | (w, some a') =>
+        let r := tunnelLoop oldsec newsec oldauth newauth w rest
+        (r.1, r.2.map (a' :: ·))
+
 /-- everything `replyh` does once the reply has been matched to an outstanding, transmitted
     request and found authentic -/
 def replyhCore (w : World) (si id o : Nat) (s0 : Server) (rq : Rq) (m : Msg) : World :=
@@ -641,24 +668,10 @@ def replyhCore (w : World) (si id o : Nat) (s0 : Server) (rq : Rq) (m : Msg) : W
           match msLoop w.H.md5 s0.conf.secret cc.secret fwdAuth rq.rqauth as2 with
           | none => w
           | some as3 =>
-            -- Tunnel-Password
+            -- Tunnel-Password (every one of them, Access-Accept only)
             let tp : World × Option (List Tlv) :=
-              match as3.findIdx? (·.t = 69) with
-              | some ti =>
-                if m.code = 2 then
-                  let ta := as3.getD ti { t := 69, v := [] }
-                  let (w, rnd) := takeRnd w 2
-                  let newsalt : Bytes := [rnd.getD 0 0 ||| 0x80, rnd.getD 1 0]
-                  let plen := (ta.v.length + 253) % 256      -- (uint8_t)(l - 3)
-                  let body := (ta.v.drop 3).take plen
-                  if plen ≠ body.length then (w, none)          -- wrapped length: rejected by the guard below
-                  else
-                    match Crypt.pwdrecrypt w.H.md5 body s0.conf.secret cc.secret
-                            ((rq.msg.map (·.auth)).getD []) rq.rqauth ((ta.v.drop 1).take 2) newsalt with
-                    | none => (w, none)
-                    | some c => (w, some (as3.set ti { ta with v := ta.v.take 1 ++ newsalt ++ c ++ (ta.v.drop (3 + plen)) }))
-                else (w, some as3)
-              | none => (w, some as3)
+              if m.code = 2 then tunnelLoop s0.conf.secret cc.secret ((rq.msg.map (·.auth)).getD []) rq.rqauth w as3
+              else (w, some as3)
             match tp with
             | (w, none) => w
             | (w, some as4) =>
